@@ -8,6 +8,7 @@ grammar = broken tie).
 -/
 import NV.Gen.C20
 import NV.C20.Model
+import NV.C20.Drive
 
 namespace NV.C20
 
@@ -112,5 +113,221 @@ theorem tie_giveuid_shape :
       "(ob->uid = add_uid(creator_name))",
       "(ob->euid = 0)",
       "return"] := by decide
+
+/-! ## round 5: inventory of every uid / euid write in the driver, interleaved statement order of the anchor functions -/
+
+/-- the driver rules by which an object's uid / euid may be written; each names the model definition that mirrors it -/
+inductive WriteRule where
+  | seteuidZero      -- f_seteuid, number branch: own euid := 0 without the master              `doSeteuidInt`
+  | seteuidApproved  -- f_seteuid after MASTER_APPROVED(valid_seteuid): own euid := argument     `doSeteuidStr`
+  | exportUid        -- f_export_uid: target uid := caller's euid                                `doExport`
+  | reloadReset      -- reload_object: euid := 0                                                 `doReload`
+  | preMaster        -- give_uid_to_object before a master exists: "NONAME" / 0                  `initObjs`
+  | creatorSame      -- give_uid_to_object, same uid as the creator                              `giveUid` branch 1
+  | creatorBackbone  -- give_uid_to_object, backbone rule                                        `giveUid` branch 2
+  | creatorDefault   -- give_uid_to_object, uid := creator_file answer, euid := 0                `giveUid` branch 3
+  | loadDefault      -- load_object: default uid before the object can be found                  `World.half`, late init in `doLoad`
+  | masterRoot       -- set_master: uid = euid = get_root_uid()                                  `initObjs`, `doDest` of the master
+  deriving DecidableEq, Repr
+
+/-- the table: which rule a write site falls under (`none` = a write the model knows nothing of) -/
+def writeRule (w : UidWrite) : Option WriteRule :=
+  if w.file = "lib/efuns/uids.c" ∧ w.fn = "f_seteuid" ∧ w.stmt = "(current_object->euid = 0)" then some .seteuidZero
+  else if w.file = "lib/efuns/uids.c" ∧ w.fn = "f_seteuid" ∧ w.stmt = "(current_object->euid = add_uid(sp->u.string))" then
+    some .seteuidApproved
+  else if w.file = "lib/efuns/uids.c" ∧ w.fn = "f_export_uid" ∧ w.stmt = "(ob->uid = current_object->euid)" then some .exportUid
+  else if w.file = "lib/lpc/object.c" ∧ w.fn = "reload_object" ∧ w.stmt = "(obj->euid = 0)" then some .reloadReset
+  else if w.file = "src/simulate.c" ∧ w.fn = "load_object" ∧ w.stmt = "(ob->uid = add_uid(\"NONAME\"))" then some .loadDefault
+  else if w.file = "src/simulate.c" ∧ w.fn = "set_master" ∧
+      (w.stmt = "(master_ob->uid = set_root_uid(uid))" ∨ w.stmt = "(master_ob->uid = add_uid(uid))" ∨
+       w.stmt = "(master_ob->euid = master_ob->uid)") then some .masterRoot
+  else if w.file = "src/simulate.c" ∧ w.fn = "give_uid_to_object" then
+    if w.applies = [] then
+      (if w.stmt = "(ob->uid = add_uid(\"NONAME\"))" ∨ w.stmt = "(ob->euid = 0)" then some .preMaster else none)
+    else if w.stmt = "(ob->uid = current_object->uid)" then some .creatorSame
+    else if w.stmt = "(ob->uid = current_object->euid)" ∨ w.stmt = "(ob->euid = current_object->euid)" then some .creatorBackbone
+    else if w.stmt = "(ob->uid = add_uid(creator_name))" ∨ w.stmt = "(ob->euid = 0)" then some .creatorDefault
+    else none
+  else none
+
+def refusalGuard : String := s!"unless !((ret == -1) || (ret && ((ret->type != {tNumber}) || ret->u.number)))"
+def sameUidCond : String := "(current_object->uid && (strcmp(current_object->uid->name, creator_name) == 0))"
+def backboneCond : String := "((backbone_uid && current_object->euid) && !strcmp(backbone_uid->name, creator_name))"
+def afterCreatorFile : List String := [s!"unless (get_machine_state() < {msMudlibLimbo})", "unless (ret == -1)"]
+
+/-- what dominates a write of each kind: the master apply that was asked before it and the guards on the way -/
+def governed (w : UidWrite) : Bool :=
+  match writeRule w with
+  | none => false
+  | some .seteuidZero => decide (w.applies = []) && decide (w.path = ["unless sp->u.number", s!"if (sp->type & {tNumber})"])
+  | some .seteuidApproved =>
+    decide (w.applies = ["valid_seteuid"]) && decide (w.path = [s!"unless (sp->type & {tNumber})", refusalGuard])
+  | some .exportUid => decide (w.applies = []) && decide (w.path = ["unless (current_object->euid == 0)", "else ob->euid"])
+  | some .reloadReset => decide (w.applies = []) && decide (w.path = [])
+  | some .preMaster => decide (w.applies = []) && decide (w.path = [s!"if (get_machine_state() < {msMudlibLimbo})"])
+  | some .creatorSame =>
+    decide (w.applies = ["creator_file"]) && decide (w.path = afterCreatorFile ++ ["if current_object", "if " ++ sameUidCond])
+  | some .creatorBackbone =>
+    decide (w.applies = ["creator_file"]) &&
+      decide (w.path = afterCreatorFile ++ ["unless " ++ sameUidCond, "if current_object", "if " ++ backboneCond])
+  | some .creatorDefault => decide (w.applies = ["creator_file"]) && decide (w.path = afterCreatorFile)
+  | some .loadDefault => decide (w.applies = []) && decide (w.path = [])
+  | some .masterRoot =>
+    -- the record-renaming set_root_uid only at the FIRST load; a reloaded master gets its uid through add_uid
+    w.applies.contains "get_root_uid" && w.path.contains "if uid" &&
+      (if w.stmt = "(master_ob->uid = set_root_uid(uid))" then w.path.contains "if first_load"
+       else if w.stmt = "(master_ob->uid = add_uid(uid))" then w.path.contains "else first_load"
+       else (w.path.contains "if first_load" || w.path.contains "else first_load"))
+
+/-- EVERY write to an object's uid / euid anywhere in src/ and lib/ (regenerated: text scan of all sources + clang AST
+    of every function that touches the fields) falls under one of the enumerated rules, and is dominated by what that
+    rule needs: the seteuid write by an approving valid_seteuid verdict, the three creation writes by the
+    creator_file apply and give_uid_to_object's conditions, the export write by the two euid tests, the master's
+    by get_root_uid.  A new assignment site (or a site that lost its guard) makes this false. -/
+theorem tie_uid_writes_governed : uidWrites.all governed = true := by decide
+
+/-- the inventory itself, site by site in (file, function, source) order: 16 writes in 6 functions -/
+theorem tie_uid_write_inventory :
+    uidWrites.map (fun w => (w.fn, w.stmt)) = [
+      ("f_export_uid", "(ob->uid = current_object->euid)"),
+      ("f_seteuid", "(current_object->euid = 0)"),
+      ("f_seteuid", "(current_object->euid = add_uid(sp->u.string))"),
+      ("reload_object", "(obj->euid = 0)"),
+      ("give_uid_to_object", "(ob->uid = add_uid(\"NONAME\"))"),
+      ("give_uid_to_object", "(ob->euid = 0)"),
+      ("give_uid_to_object", "(ob->uid = current_object->uid)"),
+      ("give_uid_to_object", "(ob->uid = current_object->euid)"),
+      ("give_uid_to_object", "(ob->euid = current_object->euid)"),
+      ("give_uid_to_object", "(ob->uid = add_uid(creator_name))"),
+      ("give_uid_to_object", "(ob->euid = 0)"),
+      ("load_object", "(ob->uid = add_uid(\"NONAME\"))"),
+      ("set_master", "(master_ob->uid = set_root_uid(uid))"),
+      ("set_master", "(master_ob->euid = master_ob->uid)"),
+      ("set_master", "(master_ob->uid = add_uid(uid))"),
+      ("set_master", "(master_ob->euid = master_ob->uid)")] ∧
+    uidWrites.map (·.file) = ["lib/efuns/uids.c", "lib/efuns/uids.c", "lib/efuns/uids.c", "lib/lpc/object.c",
+      "src/simulate.c", "src/simulate.c", "src/simulate.c", "src/simulate.c", "src/simulate.c", "src/simulate.c",
+      "src/simulate.c", "src/simulate.c", "src/simulate.c", "src/simulate.c", "src/simulate.c", "src/simulate.c"] := by decide
+
+/-- uid names are interned records shared by pointer (userid_t): a name and its record stay in bijection - which is why the
+    model may use names - as long as no record is renamed.  The two functions that rename one IN PLACE (set_root_uid,
+    set_backbone_uid) are called from set_master only, and only in its first-load branch: at that moment no object but the
+    master holds a uid.  A reloaded master takes the add_uid path (`doDest`: nobody else's names change). -/
+theorem tie_uid_records_never_renamed :
+    uidRenamers = [("src/simulate.c", "set_master", "set_backbone_uid", s!"if first_load && if (ret && (ret->type == {tString}))"),
+                   ("src/simulate.c", "set_master", "set_root_uid", "if first_load && if uid")] := by decide
+
+/-- the rules are exhaustive the other way round too: every rule of the table has a site (no dead model rule) -/
+theorem tie_uid_rules_all_used :
+    ∀ r : WriteRule, (uidWrites.any fun w => decide (writeRule w = some r)) = true := by
+  intro r; cases r <;> decide
+
+/-- f_seteuid in ONE source-ordered list: the number branch returns before the master is asked; the master is asked
+    (non-catching apply) BEFORE the refusal test; the refusal returns BEFORE the euid is written (`doSeteuidStr`) -/
+theorem tie_seteuid_order :
+    seteuidShape = [
+      s!"if (sp->type & {tNumber})", "if sp->u.number", "bad_arg", "(current_object->euid = 0)", "return",
+      "push_object(current_object)", "apply_master_ob(\"valid_seteuid\", 2)",
+      s!"if !((ret == -1) || (ret && ((ret->type != {tNumber}) || ret->u.number)))", "return",
+      "(current_object->euid = add_uid(sp->u.string))"] := by decide
+
+/-- f_export_uid in one list: the caller test (error) precedes reading the target, the target test precedes the write (`doExport`) -/
+theorem tie_export_order :
+    exportShape = ["if (current_object->euid == 0)", "error(\"Illegal to export uid 0\\n\")", "(ob = sp->u.ob)", "if ob->euid",
+      "(ob->uid = current_object->euid)"] := by decide
+
+/-- set_master = `initObjs` (first load: uid = euid = get_root_uid() only when it is a string, backbone uid fixed once)
+    and `doDest` of the master (reload: uid = euid = get_root_uid()) -/
+theorem tie_set_master_shape :
+    setMasterShape = [
+      "decl first_load = !master_ob", "decl uid = 0", s!"if (ob && (ob->flags & {oDestructed}))", "error(\"Bad master object\\n\")",
+      "if !(master_ob = ob)", "return", "apply_master_ob(\"get_root_uid\", 0)", s!"if (ret && (ret->type == {tString}))",
+      "(uid = ret->u.string)", "if first_load", "if uid", "(master_ob->uid = set_root_uid(uid))",
+      "(master_ob->euid = master_ob->uid)", "apply_master_ob(\"get_bb_uid\", 0)", s!"if (ret && (ret->type == {tString}))",
+      "set_backbone_uid(ret->u.string)", "if uid", "(master_ob->uid = add_uid(uid))", "(master_ob->euid = master_ob->uid)"] := by
+  decide
+
+/-- reload_object = `doReload` / `execReload`: euid := 0, then create() -/
+theorem tie_reload_shape : reloadShape = ["(obj->euid = 0)", "call_create(obj, 0)"] := by decide
+
+/-- load_object past the file checks = `create` with `blueprint := true`: the default uid is assigned BEFORE the object
+    enters the object table (so the half-made object of `World.half` has a uid), valid_object / creator_file are asked
+    through the non-catching apply, give_uid_to_object runs before create() -/
+theorem tie_load_tail_shape :
+    loadTailShape = [
+      "get_empty_object", "(ob->uid = add_uid(\"NONAME\"))", "enter_object_hash(ob)",
+      s!"if (get_machine_state() >= {msMudlibLimbo})", "apply_master_ob(\"valid_object\", 1)",
+      s!"if (mret && !((mret == -1) || (mret && ((mret->type != {tNumber}) || mret->u.number))))",
+      "destruct_object(ob)", "error", "if init_object(ob)", "call_create(ob, 0)"] := by decide
+
+/-- clone_object = `clonePre` / `clonePhase2` / `virtCore` / `cloneTail`: entry test, blueprint, repeated test, virtual
+    branch (compile_object again, make_new_name, no uids, no create()), ordinary clone: make_new_name (`cloneSeq`),
+    give_uid_to_object BEFORE the clone enters the object table (an error in creator_file leaves nothing behind:
+    `create` with `blueprint := false` adds no `half`), then create() -/
+theorem tie_clone_shape :
+    cloneShape = [
+      "if (current_object && (current_object->euid == 0))", "if (current_object != master_ob)",
+      "error(\"*Attempt to create object without effective UID.\")", "find_or_load_object(str1)",
+      "if ((current_object && (current_object != master_ob)) && (current_object->euid == 0))",
+      "error(\"*Attempt to create object without effective UID.\")", "if (ob && !object_visible(ob))", "if (ob == 0)", "return",
+      s!"if (ob->flags & {oClone})", s!"if (!(ob->flags & {oVirtual}) || strrchr(str1, '#'))",
+      "error(\"*Cannot clone from a clone!\")", "if !(str1 = strip_and_check_name(str1))",
+      "error(\"*Filenames with consecutive /'s in them aren't allowed (%s).\", str1)",
+      "if (((ob->ref == 1) && !ob->super) && !ob->contains)", "if !(v = load_virtual_object(str1))", "return",
+      "if new_ob->name", "make_new_name(str1)", "enter_object_hash(new_ob)", "return",
+      s!"if (ob->flags & {oHeartBeat})", "get_empty_object", "make_new_name(ob->name)", "if !current_object",
+      "init_object(new_ob)", "enter_object_hash(new_ob)", "call_create(new_ob, num_arg)",
+      s!"if (new_ob->flags & {oDestructed})", "return", "return"] := by decide
+
+/-- init_object is give_uid_to_object and nothing else -/
+theorem tie_init_object_shape : initObjectShape = ["return", "give_uid_to_object(ob)"] := by decide
+
+/-- load_virtual_object = `virtCore`: compile_object through the non-catching apply, anything but an object = nothing;
+    no uid is given to the returned object -/
+theorem tie_load_virtual_shape :
+    loadVirtualShape = [s!"if (get_machine_state() < {msMudlibLimbo})", "return", "apply_master_ob(\"compile_object\", 1)",
+      s!"if (!v || (v->type != {tObject}))", "return", "return"] := by decide
+
+/-- f_bind = the `.bind` case of `execWith`: binding to the present owner returns at once (the master is not asked);
+    otherwise master valid_bind through the NON-catching apply (an error propagates: `Ans.err`), refusal iff
+    !MASTER_APPROVED (a NULL result - no valid_bind in the master - refuses: `Cfg.noVb`) = error; only after that the
+    function gets its new owner -/
+theorem tie_bind_shape :
+    bindShape = [
+      "if (ob == old_fp->hdr.owner)", "return",
+      s!"if (old_fp->hdr.type == ({fpLocal} | {fpNotBindable}))", "error(\"Local function is not bindable.\\n\")",
+      s!"if (old_fp->hdr.type & {fpNotBindable})", "error(\"Function that references global variables is not bindable.\\n\")",
+      s!"if (current_object->flags & {oDestructed})", s!"if (old_fp->hdr.owner->flags & {oDestructed})",
+      "apply_master_ob(\"valid_bind\", 3)",
+      s!"if !((res == -1) || (res && ((res->type != {tNumber}) || res->u.number)))",
+      "error(\"Permission of binding denied by master object.\\n\")",
+      s!"if ((old_fp->hdr.type & 15) == {fpFunctional})", "(new_fp->hdr.owner = ob)",
+      s!"if ((old_fp->hdr.type & 15) == {fpFunctional})"] := by decide
+
+/-- make_new_name = `World.cloneSeq` (starts at 1 in `World.init`, `cloneSelf` / `virtCore` use it and add 1): one static
+    counter, initialised to 1, the name is `<str>#<counter>`, incremented once per call -/
+theorem tie_make_new_name_shape :
+    makeNewNameShape = ["decl static i = 1", "sprintf(\"%s#%d\", str, i)", "post++ i"] ∧ (World.init ⟨"", none, false, false, false⟩).cloneSeq = 1 := by
+  decide
+
+/-- destruct_object, as far as the master and the simul_efun object are concerned = `doDest`: the simul_efun object is not
+    destructed while a master exists (`Err.simulDest`); a destructed master is replaced by `load_object` of the same name -
+    a load on behalf of the CALLER (the euid test of `doDest`) - and then `set_master` (uid = euid = get_root_uid()) -/
+theorem tie_destruct_vital_shape :
+    destructVitalShape = [
+      "if ((ob == simul_efun_ob) && master_ob)", "error(\"*Cannot destruct simul_efun_object while master_object exists.\")",
+      "if ((ob == master_ob) || (ob == simul_efun_ob))", "decl new_ob = 0", "decl vital_obj_name = 0", "if (ob == master_ob)",
+      "if (ob == simul_efun_ob)", "if (vital_obj_name && !g_proceeding_shutdown)",
+      "if !strip_name(vital_obj_name, new_name, sizeof)",
+      "error(\"*Destruction of vital object rejected due to invalid config setting (\\\"%s\\\").\", vital_obj_name)",
+      "(new_ob = load_object(tmp, 0))", "if !new_ob", "error(\"*Destruct on vital object failed: new copy failed to reload.\")",
+      "if (ob == master_ob)", "set_master(new_ob)", "if (ob == simul_efun_ob)", "set_simul_efun(new_ob)", "if new_ob", "if new_ob"] := by
+  decide
+
+/-- the error texts the model prints (`Err.render`, NV/C20/Drive.lean) are the driver's (harness form: newline dropped,
+    blanks as `_`) -/
+theorem tie_error_texts :
+    errTexts = [Err.render .noEuidLoad, Err.render .noEuidClone, Err.render .exportZero, Err.render .simulDest,
+                Err.render .bindDenied] := by decide
 
 end NV.C20
